@@ -1,0 +1,169 @@
+//! Verification hooks for deterministic-simulation harnesses.
+//!
+//! Only compiled with `--cfg aranya_verif`. With the guard off
+//! this module and every call into it compile to nothing. With
+//! the guard on but no [`Hooks`] installed every call is a no-op
+//! and the crate behaves exactly as without the guard (the real
+//! futex and `sched_yield` are used).
+//!
+//! A harness installs one process-wide table of function
+//! pointers with [`install`]:
+//!
+//! - `point(site)` is called immediately before every atomic
+//!   operation, lock, unlock and list mutation in `mutex.rs`,
+//!   `shm/shared.rs`, `shm/read.rs`, `shm/write.rs` and
+//!   `memory/lender.rs`. A controlled scheduler performs
+//!   a scheduling point there, so that the real atomics between
+//!   two points execute atomically.
+//! - `futex_wait` / `futex_wake` / `sched_yield` replace the
+//!   system calls used by the shared memory mutex when they
+//!   return `true` ("handled"). Returning `false` falls through
+//!   to the real system call.
+//! - `probe(name)` reports that a rarely taken branch was
+//!   reached.
+
+#![cfg(aranya_verif)]
+#![allow(missing_docs, clippy::missing_panics_doc)]
+
+use core::{
+    ptr,
+    sync::atomic::{AtomicPtr, AtomicU32, Ordering},
+};
+
+/// The function pointers a harness installs.
+#[derive(Copy, Clone, Debug)]
+pub struct Hooks {
+    /// Scheduling point named `site`.
+    pub point: fn(site: &'static str),
+    /// Replacement for `FUTEX_WAIT`: block while `*addr == val`
+    /// until woken (spurious returns are allowed). Returns
+    /// `true` if handled.
+    pub futex_wait: fn(addr: &AtomicU32, val: u32) -> bool,
+    /// Replacement for `FUTEX_WAKE`: wake at most `cnt` waiters
+    /// on `addr`. Returns `true` if handled.
+    pub futex_wake: fn(addr: &AtomicU32, cnt: u32) -> bool,
+    /// Replacement for `sched_yield`. Returns `true` if handled.
+    pub sched_yield: fn() -> bool,
+    /// A rarely taken branch named `name` was reached.
+    pub probe: fn(name: &'static str),
+}
+
+static HOOKS: AtomicPtr<Hooks> = AtomicPtr::new(ptr::null_mut());
+
+/// Installs `hooks` for the whole process.
+pub fn install(hooks: &'static Hooks) {
+    HOOKS.store(ptr::from_ref(hooks).cast_mut(), Ordering::SeqCst);
+}
+
+/// Removes the installed hooks.
+pub fn uninstall() {
+    HOOKS.store(ptr::null_mut(), Ordering::SeqCst);
+}
+
+#[inline]
+fn hooks() -> Option<&'static Hooks> {
+    let p = HOOKS.load(Ordering::Acquire);
+    // SAFETY: `p` is either null or was derived from a `&'static
+    // Hooks` in `install`.
+    unsafe { p.cast_const().as_ref() }
+}
+
+/// A scheduling point. See the module docs.
+#[inline]
+pub fn point(site: &'static str) {
+    if let Some(h) = hooks() {
+        (h.point)(site);
+    }
+}
+
+/// Reports that the branch `name` was reached.
+#[inline]
+pub fn probe(name: &'static str) {
+    if let Some(h) = hooks() {
+        (h.probe)(name);
+    }
+}
+
+/// Returns `true` if a harness performed the wait.
+#[inline]
+pub fn futex_wait(addr: &AtomicU32, val: u32) -> bool {
+    match hooks() {
+        Some(h) => (h.futex_wait)(addr, val),
+        None => false,
+    }
+}
+
+/// Returns `true` if a harness performed the wake.
+#[inline]
+pub fn futex_wake(addr: &AtomicU32, cnt: u32) -> bool {
+    match hooks() {
+        Some(h) => (h.futex_wake)(addr, cnt),
+        None => false,
+    }
+}
+
+/// Returns `true` if a harness performed the yield.
+#[inline]
+pub fn sched_yield() -> bool {
+    match hooks() {
+        Some(h) => (h.sched_yield)(),
+        None => false,
+    }
+}
+
+/// `true` if `memory::State` is protected by this crate's own
+/// (hooked) mutex rather than by `std::sync::Mutex`.
+pub const MEMORY_STATE_USES_CRATE_MUTEX: bool = cfg!(not(feature = "std"));
+
+/// `true` if the futex based mutex (not the CAS spin lock) is
+/// compiled in.
+pub const FUTEX_MUTEX: bool = cfg!(all(
+    not(feature = "cas_mutex"),
+    feature = "libc",
+    any(target_os = "linux", target_os = "macos")
+));
+
+/// The crate private shared memory mutex (`crate::mutex::Mutex`),
+/// exported so that a harness can drive the real lock and unlock
+/// paths directly.
+#[cfg(any(feature = "memory", feature = "sdlib", feature = "posix"))]
+#[derive(Debug, Default)]
+#[repr(transparent)]
+pub struct SharedMutex<T>(crate::mutex::Mutex<T>);
+
+#[cfg(any(feature = "memory", feature = "sdlib", feature = "posix"))]
+impl<T> SharedMutex<T> {
+    /// Creates a new, unlocked mutex.
+    pub fn new(v: T) -> Self {
+        Self(crate::mutex::Mutex::new(v))
+    }
+
+    /// Locks the mutex (`Mutex::lock`, i.e. `sys_lock`). It is
+    /// unlocked (`sys_unlock`) when the guard is dropped.
+    pub fn lock(&self) -> SharedMutexGuard<'_, T> {
+        match self.0.lock() {
+            Ok(g) => SharedMutexGuard(g),
+            Err(e) => match e {},
+        }
+    }
+}
+
+/// Releases a [`SharedMutex`] when dropped.
+#[cfg(any(feature = "memory", feature = "sdlib", feature = "posix"))]
+pub struct SharedMutexGuard<'a, T>(crate::mutex::MutexGuard<'a, T>);
+
+#[cfg(any(feature = "memory", feature = "sdlib", feature = "posix"))]
+impl<T> core::ops::Deref for SharedMutexGuard<'_, T> {
+    type Target = T;
+
+    fn deref(&self) -> &T {
+        &self.0
+    }
+}
+
+#[cfg(any(feature = "memory", feature = "sdlib", feature = "posix"))]
+impl<T> core::ops::DerefMut for SharedMutexGuard<'_, T> {
+    fn deref_mut(&mut self) -> &mut T {
+        &mut self.0
+    }
+}
